@@ -14,6 +14,7 @@ import YadismModel.Model.Serialize
 import YadismModel.Model.Cache
 import YadismModel.Model.KExpr
 import YadismModel.Generated.Kernels
+import YadismModel.Model.Norm
 
 open Yadism Yadism.Proto
 
@@ -400,6 +401,14 @@ def handle (op : String) : RdM String := do
       let mn ← rat; let m2w ← rat; let gf ← rat; let pi ← rat
       let (a, b, c) := xsCoeffs kind y x q2 { projectilePID := pid, mn, m2w, gf, pi }
       pure s!"{showRat a} {showRat b} {showRat c}"
+  | "distok" => do   -- distok tau sing loc
+      let tau ← rat; let sn ← tok; let ln ← tok
+      let find (n : String) := (Yadism.Gen.kernelTable.find? (fun e => e.1 == n)).map (·.2)
+      match find sn, find ln with
+      | some s, some l =>
+        let ns := normLD s; let nl := normLD l
+        pure s!"{showBool (distributionOK tau s l)} sing:{match ns with | some x => s!"k={x.k},deg={x.p.length}" | none => "none"} loc:{match nl with | some x => s!"k={x.k},deg={x.p.length}" | none => "none"}"
+      | _, _ => pure "unknown-kernel"
   | "keval" => rdKeval
   | "kinfo" => rdKinfo
   | "update" => do   -- compatibility.update: update <theory card> <obs card>
